@@ -163,6 +163,38 @@ def history_real(c: dict[str, Any], evs: list[OTelEvent]) -> Optional[str]:
     return None
 
 
+# ---- C09 through the driver: with unique-graph filtering the streamed jobs are one per distinct shape ----
+def unique_vs_all(mk_holder: Any, mk_holder2: Any, evs: list[OTelEvent]) -> Optional[str]:
+    gu = one_run(mk_holder, evs, [1, 1])
+    ga = one_run(mk_holder2, evs, [1, 0])
+    if isinstance(gu, str) or isinstance(ga, str):
+        return f"run raised: {gu if isinstance(gu, str) else ga}"
+    du, da = dict(gu), dict(ga)
+    if sorted(du) != sorted(da):
+        return f"workflow names with filtering {sorted(du)}, without {sorted(da)}"
+    for name in da:
+        shapes = []
+        for job in da[name]:
+            if job not in shapes:
+                shapes.append(job)
+        if sorted(map(repr, du[name])) != sorted(map(repr, shapes)):
+            return (f"workflow {name}: {len(du[name])} jobs streamed with unique-graph filtering for {len(shapes)} distinct shapes "
+                    f"among the {len(da[name])} stored traces")
+    return None
+
+
+def unique_driver(broken: int, late: int) -> bool:
+    """
+    pre: pre(broken, late)
+    post: _
+    """
+    path_tick()
+    evs = events(broken, late)
+    s1, s2 = M.Store(), M.Store()
+    return unique_vs_all(lambda: V.model_holder(s1, CFG["batch"], CFG["buf"]),
+                         lambda: V.model_holder(s2, CFG["batch"], CFG["buf"]), evs) is None
+
+
 def pre(broken: int, late: int) -> bool:
     if "late" in CFG and late != CFG["late"]:
         return False
@@ -188,6 +220,18 @@ def twin(broken: int, late: int) -> bool:
 
 def replay(args: list[Any], c: dict[str, Any]) -> dict[str, Any]:
     b, l = int(args[0]), int(args[1])
+    if c.get("kind") == "unique-driver":
+        made: list[Any] = []
+
+        def mk() -> Any:
+            h = V.real_holder(c["batch"], c["buf"])
+            made.append(h)
+            return h
+        msg = unique_vs_all(mk, mk, events(b, l))
+        for h in made:
+            h.engine.dispose()
+        return {"violates": msg is not None, "sig": "unique-graphs-driver",
+                "what": (msg or "one streamed job per distinct shape") + f" [broken trace {b}, placement {l}, buffer {c['buf']}]"}
     msg = history_real(c, events(b, l))
     sig = "rerun-raises" if msg and "raised" in msg else "rerun-differs"
     return {"violates": msg is not None, "sig": sig,
